@@ -551,6 +551,53 @@ func c12(c *an.Ctx) {
 		o.Note("allow-list: %s", strings.Join(keys, ", "))
 	})
 
+	c.Check("R-PROV", "WithShardLimit / WithDynamicLimit return a whole copy of the receiver with one limit added: a limit that is already set is carried over to the derived handle", 2, func(o *an.O) {
+		for _, nm := range []string{"(*DB).WithShardLimit", "(*DB).WithDynamicLimit"} {
+			fn := c.NeedFunc(sg, nm)
+			recv := ssa.Value(fn.Params[0])
+			for _, e := range an.Exits(fn, false) {
+				ret, ok := e.(*ssa.Return)
+				if !ok || len(ret.Results) != 2 || !isConstNil(an.ResultAt(ret, 1)) {
+					continue
+				}
+				o.Site(e)
+				al, ok := an.StripConv(an.ResultAt(ret, 0)).(*ssa.Alloc)
+				if !ok {
+					o.FailAt(e, "%s returns %s, not a fresh copy of the receiver", nm, an.Short(an.Expr(ret.Results[0]), 50))
+					continue
+				}
+				// the copy is initialised with *db as a whole ...
+				whole := false
+				copied := map[string]bool{}
+				for _, r := range *al.Referrers() {
+					switch x := r.(type) {
+					case *ssa.Store:
+						if x.Addr == ssa.Value(al) {
+							if ld, ok := x.Val.(*ssa.UnOp); ok && ld.Op == token.MUL && ld.X == recv {
+								whole = true
+							}
+						}
+					case *ssa.FieldAddr:
+						for _, r2 := range *x.Referrers() {
+							if st, ok := r2.(*ssa.Store); ok && st.Addr == ssa.Value(x) {
+								copied[an.FieldName(x.X.Type(), x.Field)] = true
+							}
+						}
+					}
+				}
+				if whole {
+					continue
+				}
+				// ... or field by field, and then both limits must be among the fields carried over
+				for _, f := range []string{"shardLimit", "dynamicLimit", "Conn", "Schema"} {
+					if !copied[f] {
+						o.FailAt(e, "%s builds the derived handle field by field and does not carry over %s: a handle that already had that limit (or connection / schema) loses it - statements on the derived handle are no longer confined", nm, f)
+					}
+				}
+			}
+		}
+	})
+
 	c.Check("R-GUARD", "BaseQuery batches only without options, outside a transaction, with batching on the context; batchFetch shards by table", 2, func(o *an.O) {
 		fn := c.NeedFunc(sg, "(*DB).BaseQuery")
 		n := 0
